@@ -10,10 +10,11 @@ def run(ctx):
         return vlib.replay_dir(ctx, "Trace_Backup.tla", "Trace_Backup.cfg", backup.reset)
     T = ctx.thorough
     ctx.rule = ("M1: TLC exhausts Backup.tla: C11_DamageDetected / C11_MultiShard -- for every completed backup reachable in the model, every single "
-                "fault (each manifest missing or garbled, each shard missing, truncated at every unit, altered) and every subset of emptied shards "
+                "fault (each manifest missing or garbled, a listed shard name altered into another listed name, each shard missing, truncated at every "
+                "unit, altered) and every subset of emptied shards "
                 "leaves Load in {error, exact}, for 1 and 2 restore workers; "
                 "M2 (fault enumeration on the real code): small databases are stored by a child process, then EVERY byte of EVERY file is altered "
-                "(3 patterns), every file truncated at EVERY length and removed, plus random multi-shard combinations (up to all shards); "
+                "(3 patterns; every digit of a manifest also to every other digit), every file truncated at EVERY length and removed, plus random multi-shard combinations (up to all shards); "
                 "LoadFromDisk runs under a watchdog with panic capture; each outcome is an event judged by TLC (Trace_Backup.tla): "
                 "error, or items and Count() exactly those of the stored snapshot")
     backup.model_check(ctx, 2, [2, 1], 1)
@@ -67,5 +68,6 @@ def run(ctx):
                         "the top byte of a length prefix is only altered by +1 (x16 MiB): larger values merely request >= 2 GiB of memory",
                         "a load that is still running at the watchdog is a hang only if its goroutine dump shows the feeder blocked in a channel send with no worker left; otherwise it is reported as 'slow' and not judged",
                         "a process-fatal error inside a library goroutine is attributed to the announced case as 'panic'; out-of-memory is not a verdict",
-                        "quick tier samples every 2nd byte offset inside shard files (all offsets near file ends); thorough alters every byte"]
+                        "quick tier samples every 2nd byte offset inside shard files (all offsets near file ends, every offset of the manifests); thorough alters every byte",
+                        "Backup.tla assumes the worst case for the XOR-of-CRC32 shard checksum: two different shards holding the same number of items may have equal checksums"]
     return None
